@@ -21,8 +21,8 @@ CHECKS = {
             "Trusted: model_diff; purge cut-off observed through will_apply. The actor/RPC repair path is exercised by C01, not here.",
             "DESIGN.md section 10 C05"),
     "C08": ("E0", "exploration",
-            "Hour-scale discrete-event simulation of 2-4 real OrSWotSet<2>+HLC replicas (direct source + pull-repair source, clock skew, duplicate/lost direct messages) executed twice per scenario - with and without its purge events - and compared (differential), plus local purge facts at every purge (re-probed after every later event on the replica) and absolute last-writer-wins; one case in six is a 'straggler' history (one origin's stamps out of order around the purge of its early delete).",
-            "Trusted: the set-level restatement of the actor's gating (will_apply filter, timestamp-sorted batches, docs fetched at apply time). Timely histories only, enforced and re-validated.",
+            "Hour-scale discrete-event simulation of 2-4 real OrSWotSet<2>+HLC replicas (direct source + pull-repair source, clock skew, duplicate/lost direct messages) executed twice per scenario - with and without its purge events - and compared (differential), plus local purge facts at every purge (re-probed after every later event on the replica) and absolute last-writer-wins; one case in six is a 'straggler' history (one origin's stamps out of order around the purge of its early delete). One case in 9 973 is a cluster case on the E2 engine: 2-4 complete nodes (real store, keyspace actors with their own hourly purge pass, poller, distributor, RPC stack over simulated TCP) run for 2.5-4.5 simulated hours in bursts of writes and deletes an hour apart (each burst with a half in which nodes believe they have no peers, so both sources of the sets see every origin), short link holds, outages with restarts, clock skew and jumps, writes landing right on the hour, a store whose remove_tombstones removes whatever row a key names (as the bundled SQLite backend does); at every quiet point and at the end every node must hold exactly the last-writer-wins documents.",
+            "Trusted: the set-level restatement of the actor's gating (will_apply filter, timestamp-sorted batches, docs fetched at apply time). Timely histories only, enforced and re-validated (cluster arm: skew within +-5 min, holds and outages at most 6 min, a poller every 5-10 s, quiet points at least 8 min after the last fault or operation).",
             "DESIGN.md section 10 C08"),
     "C09": ("E0", "exploration",
             "One real HLCTimestamp under an injected wall clock (stall, backwards/forwards jumps) interleaved with send/recv of adversarially placed remote stamps; every clause of the statement is an invariant checked per step, and every refusal must have its cause (a remote stamp within the permitted drift has to be accepted).",
@@ -73,7 +73,7 @@ CHECKS = {
             "Probes are sequenced after each registry change. The re-registration arm uses one real second thread whose start is forced by a handshake plus 25 ms of real time; the unchanged registry ends in the same state whichever call finishes last.",
             "DESIGN.md section 10 C13"),
     "C14": ("E2", "exploration",
-            "Waves of concurrent requests with unique ids, payload sizes, handler delays and client timeouts over simulated TCP with timed hold/release, partition/repair (mid-stream) and server kill+restart; results checked against the handler's execution log: right reply or Connection/Timeout error, at most one execution, no swapped replies, timeouts honoured.",
+            "Waves of concurrent requests with unique ids, payload sizes (0-20 KiB; one case in seven also 64-900 KiB, several HTTP/2 flow-control windows), handler delays and client timeouts over simulated TCP with timed hold/release, partition/repair (mid-stream) and server kill+restart; results checked against the handler's execution log: right reply or Connection/Timeout error, at most one execution, no swapped replies, timeouts honoured.",
             "Black-holed requests without a timeout are abandoned by the harness after 30 simulated s (the statement promises no bound for them).",
             "DESIGN.md section 10 C14"),
     "C19": ("E2", "exploration",
